@@ -37,6 +37,32 @@ def _alias_locals(b, l):
     return out
 
 
+def _inline_split(env, m, db, dctx, adt, w, Lc):
+    """(block, terminator, lower bound) of an element-wise move-out over `lo..LEN` written directly in body db:
+    `(lo..LEN).map(|i| ptr.add(i).read())` or `for i in lo..LEN { .. ptr.add(i).read() .. }`"""
+    from guards import range_elem
+    ev, R = env.ev, env.R
+    reads = False
+    for e in env.flat_events(db, adt, w, own_closures=True):
+        if e.kind == "call" and e.callee.key in ("std::ptr::const_ptr::read", "std::ptr::mut_ptr::read", "std::ptr::read") \
+                and e.args and R.classify(e.args[0])[0] == "store":
+            reads = True
+    if not reads:
+        return None
+    for bi, t, c in db.calls():
+        if db.blocks[bi]["cleanup"] or c.indirect:
+            continue
+        rg = None
+        if c.trait == "std::iter::Iterator" and c.name == "map" and t["args"]:
+            rg = unref(ev.operand(dctx, t["args"][0]))
+        elif c.trait == "std::iter::IntoIterator" and c.name == "into_iter" and t["args"]:
+            rg = unref(ev.operand(dctx, t["args"][0]))
+        if rg is not None and rg[0] == "agg" and rg[1].endswith("ops::Range::Range") and len(rg[2]) == 2 \
+                and m.canon(unref(rg[2][1])) == Lc:
+            return (bi, t, unref(rg[2][0]))
+    return None
+
+
 def rule_own(env, shared):
     out = []
     R, F, ev = env.R, env.F, env.ev
@@ -71,7 +97,12 @@ def rule_own(env, shared):
                 # `for i in left..N { .. ptr.add(i).read() .. }`
                 from guards import range_elem
                 re_ = range_elem(off) if off is not None else None
-                if re_ is not None and m.canon(re_[1]) == m.canon(r["len_term"]) and re_[0][0] == "param":
+                def split_point(lo):
+                    # the helper's parameter, or (when the split is written out in Drop / into_seq_iter themselves) the
+                    # position counter — how it may be derived from the counter is decided by OWN.c / SEQ
+                    return lo[0] == "param" or any(x[0] == "atomic" and x[1] == "load" and R.classify(x[2])[0] == "pos"
+                                                   for x in subterms(lo))
+                if re_ is not None and m.canon(re_[1]) == m.canon(r["len_term"]) and split_point(re_[0]):
                     okk = True
                 # the closure parameter of a map over Range{left, N}
                 if b.is_closure and _is_clarg(off, 2):
@@ -83,7 +114,7 @@ def rule_own(env, shared):
                             if src[0] == "agg" and src[1].endswith("Range::Range"):
                                 lo, hi = unref(src[2][0]), unref(src[2][1])
                                 Lc = m.canon(r["len_term"])
-                                if m.canon(hi) == Lc and lo[0] == "param":
+                                if m.canon(hi) == Lc and split_point(lo):
                                     okk = True
                 out.append(Ob("OWN.a", k, "ok" if okk else "viol", e.loc(),
                               "remainder moved out element-wise over [split index, LEN) with exclusive access" if okk else
@@ -145,6 +176,14 @@ def rule_own(env, shared):
                     if lds:
                         rs_call = (bi, t, F.bodies[d], a1, lds)
             if rs_call is None:
+                # the split written out in Drop itself: elements read over `lo..LEN` (a map over the range, or a for loop)
+                inl = _inline_split(env, m, db, dctx, adt, w, Lc)
+                if inl is not None:
+                    bi_, t_, lo_ = inl
+                    lds_ = [x for x in subterms(lo_) if x[0] == "atomic" and x[1] == "load" and R.classify(x[2])[0] == "pos"]
+                    if lds_:
+                        rs_call = (bi_, t_, None, lo_, lds_)
+            if rs_call is None:
                 out.append(Ob("OWN.c", k, "viol", db.file_line(),
                               "Drop of %s does not hand the position counter to a remainder split: undelivered elements are "
                               "not dropped (or delivered ones are)" % nm))
@@ -192,24 +231,28 @@ def rule_own(env, shared):
                                       True))
                 # the remainder split uses its parameter as split point without arithmetic
                 k2 = "OWN.c|%s|remainder-split" % nm
-                rctx = env.ctx(rsb, adt, w)
-                rt = ev.local(rctx, 0)
-                p2 = ("param", 2)
-                uses = [x for x in subterms(rt) if x == p2]
-                arith2 = False
-                from r_ovf import ALLOC_SIZED
-                rt = rewrite(rt, lambda x: ("const", "allocation-hint") if (x[0] == "ret" and x[1] in ALLOC_SIZED) else None)
-                for x in subterms(rt):
-                    if x[0] == "bin" and x[1] in ("Add", "Sub", "Mul") and (p2 in (unref(x[2]), unref(x[3]))):
-                        arith2 = True
-                    if x[0] == "call" and x[1] in ("saturating_add", "saturating_sub") and p2 in [unref(y) for y in x[2]]:
-                        arith2 = True
-                okk = bool(uses) and not arith2 and exclusive_only(env, rsb)
-                out.append(Ob("OWN.c", k2, "ok" if okk else "viol", rsb.file_line(),
-                              "remainder split uses its split index unchanged and runs only with exclusive access" if okk else
-                              "the remainder split of %s %s" % (nm, "modifies its split index" if arith2 else
-                                                                "is reachable from shared (&self) callers or ignores its index"),
-                              True))
+                if rsb is None:
+                    out.append(Ob("OWN.c", k2, "ok", db.file_line(t["loc"]),
+                                  "the remainder is moved out in Drop itself, over [split index, LEN) (rule OWN.a)", True))
+                else:
+                    rctx = env.ctx(rsb, adt, w)
+                    rt = ev.local(rctx, 0)
+                    p2 = ("param", 2)
+                    uses = [x for x in subterms(rt) if x == p2]
+                    arith2 = False
+                    from r_ovf import ALLOC_SIZED
+                    rt = rewrite(rt, lambda x: ("const", "allocation-hint") if (x[0] == "ret" and x[1] in ALLOC_SIZED) else None)
+                    for x in subterms(rt):
+                        if x[0] == "bin" and x[1] in ("Add", "Sub", "Mul") and (p2 in (unref(x[2]), unref(x[3]))):
+                            arith2 = True
+                        if x[0] == "call" and x[1] in ("saturating_add", "saturating_sub") and p2 in [unref(y) for y in x[2]]:
+                            arith2 = True
+                    okk = bool(uses) and not arith2 and exclusive_only(env, rsb)
+                    out.append(Ob("OWN.c", k2, "ok" if okk else "viol", rsb.file_line(),
+                                  "remainder split uses its split index unchanged and runs only with exclusive access" if okk else
+                                  "the remainder split of %s %s" % (nm, "modifies its split index" if arith2 else
+                                                                    "is reachable from shared (&self) callers or ignores its index"),
+                                  True))
         # ---- (g) a chunk of a consuming iterator owns the elements reserved for it (an owning view), so that the part the
         #          caller does not consume — break, panic, discarded chunk — is still dropped exactly once
         from r_m1 import is_view
